@@ -2,6 +2,7 @@ package mask
 
 import (
 	"regexp"
+	"sort"
 	"unicode/utf8"
 
 	"github.com/ozontech/file.d/cfg"
@@ -148,6 +149,8 @@ func compileMask(m *Mask, logger *zap.Logger) {
 		}
 		m.Re_ = re
 		m.Groups = cfg.VerifyGroupNumbers(m.Groups, re.NumSubexp(), logger)
+		// maskValue walks the value from left to right: groups are numbered by their opening parenthesis, i.e. in text order
+		sort.Ints(m.Groups)
 	}
 	for i, matchRule := range m.MatchRules {
 		if len(matchRule.Rules) == 0 {
@@ -213,6 +216,13 @@ func (m *Mask) maskValue(value, buf []byte) ([]byte, bool) {
 			curFinish = index[grp*2+1]
 			if curStart < 0 || curFinish < 0 { // invalid idx check
 				continue
+			}
+			if curStart < prevFinish {
+				// the group starts inside what is masked already: it is nested in (or overlaps) a group written before it
+				if curFinish <= prevFinish {
+					continue
+				}
+				curStart = prevFinish
 			}
 
 			buf = append(buf, value[prevFinish:curStart]...)
